@@ -17,7 +17,10 @@ import (
 	"verif/harness/lib"
 )
 
-const verifyDeadline = 20 * time.Second
+// verifyDeadline bounds one call into the code under test. It is generous and a timeout is retried
+// once with a longer bound, because on a saturated machine a goroutine can be starved for many
+// seconds; only a call that exceeds both is reported as a hang.
+const verifyDeadline = 90 * time.Second
 
 // check is one request to the model plus what the real code answered and what must hold.
 type check struct {
@@ -191,7 +194,7 @@ func main() {
 	}
 	go timed("trie_section_done_s", func() { c.trieSection(r.Fork(1), ch) })
 	go timed("rpc_section_done_s", func() { c.rpcSection(r.Fork(2), ch) })
-	go timed("range_section_done_s", func() { c.rangeSection(r.Fork(3)) })
+	go timed("range_section_done_s", func() { c.rangeSection(r.Fork(3), ch) })
 	go timed("weird_section_done_s", func() { c.weirdSection(r.Fork(4), ch) })
 	sections.Wait()
 	close(ch)
